@@ -51,7 +51,8 @@ func ExtractCar(c *cli.Context) error {
 			}
 		}
 		var err error
-		store, roots, err = NewStdinReadStorage(c.App.Reader)
+		// stdin may be a pipe: os.Stdin is an io.Seeker by type but cannot seek then, so hide Seek
+		store, roots, err = NewStdinReadStorage(struct{ io.Reader }{c.App.Reader})
 		if err != nil {
 			return err
 		}
